@@ -1,1 +1,3 @@
 import BlobfinderModel.Properties.C13
+import BlobfinderModel.Properties.C08
+import BlobfinderModel.Properties.C09
